@@ -11,7 +11,7 @@ Open Scope string_scope.
 Theorem C07_overrides_as_reference :
   forall (D : data) (analyses : list (analysis (Sem.earg (d_val D)))) (modpath : string)
          (H : list string) (p : program) (fuel : nat) (s : state D),
-    pure_truth D -> src_prog p = true -> ok_prog H p = true ->
+    pure_truth D -> unbound_reads_uniform D -> src_prog p = true -> ok_prog H p = true ->
     inst_run D analyses modpath H fuel p s = ref_run D analyses modpath H fuel p s.
 Proof. exact instrumented_is_reference. Qed.
 Print Assumptions C07_overrides_as_reference.
